@@ -153,6 +153,18 @@ var abcdStruct = reflect.StructOf([]reflect.StructField{
 	{Name: "D", Type: ifaceType},
 })
 
+// taggedStruct spells the dictionary {a, b, c, d} with every kind of field tag.
+type taggedStruct struct {
+	First interface{} `config:"a"`
+	In    struct {
+		B     interface{}
+		Third interface{} `config:"c"`
+	} `config:",inline"`
+	D      *interface{} `config:"d"`
+	Skip   string       `config:",ignore"`
+	hidden int
+}
+
 // Render builds the Go value for n in representation rep. Nested containers
 // use the generic form except where the representation says otherwise.
 // opts are the options the value will be normalised with (needed for RepConfig).
@@ -177,6 +189,29 @@ func Render(n *model.Node, rep int, opts []ucfg.Option) interface{} {
 		return c
 	case RepStruct:
 		if len(n.A) == 0 && !(len(n.D) == 0 && n.Sticky == 2) {
+			if len(n.D)%2 == 1 {
+				// the tagged form: renamed, inline, pointer, ignored and unexported fields
+				t := &taggedStruct{Skip: "decoy", hidden: 7}
+				for _, k := range n.Keys() {
+					x := Render(n.D[k], RepGeneric, opts)
+					switch k {
+					case "a":
+						t.First = x
+					case "b":
+						t.In.B = x
+					case "c":
+						t.In.Third = x
+					case "d":
+						if x != nil {
+							t.D = &x
+						}
+					}
+				}
+				if len(n.D)%4 == 1 {
+					return t
+				}
+				return *t
+			}
 			v := reflect.New(abcdStruct).Elem()
 			for _, k := range n.Keys() {
 				f := v.FieldByName(string(rune('A' + (k[0] - 'a'))))
